@@ -93,7 +93,12 @@ def proof_step(pid, module, thorough):
     if thms is None:
         info["log"] = "missing " + path
         return info
-    ok, log = t2nlib.build_lean([module])
+    # the property module and its sub-modules (per-language tables, text-level corollaries)
+    mods = [module]
+    sub = path[:-5]
+    if os.path.isdir(sub):
+        mods += [module + "." + f[:-5] for f in sorted(os.listdir(sub)) if f.endswith(".lean")]
+    ok, log = t2nlib.build_lean(mods)
     info["built"] = ok
     info["log"] = log[-3000:] if not ok else ""
     info["forbidden"] = audit_sources()
@@ -103,7 +108,8 @@ def proof_step(pid, module, thorough):
     # #print axioms on every theorem of the property file
     tmp = os.path.join(LEAN_DIR, ".audit_%s_%d.lean" % (pid, os.getpid()))
     with open(tmp, "w") as f:
-        f.write("import %s\n" % module)
+        for mname in mods:
+            f.write("import %s\n" % mname)
         for t in thms:
             f.write("#print axioms %s\n" % t)
     r = t2nlib.sh("lake env lean %s 2>&1" % os.path.basename(tmp), cwd=LEAN_DIR, check=False)
